@@ -156,7 +156,11 @@ func (s *Spec) write(overwrite bool) error {
 		return fmt.Errorf("failed to create Spec file: %w", err)
 	}
 	_, err = tmp.Write(data)
-	_ = tmp.Close()
+	if cerr := tmp.Close(); err == nil {
+		// a write-back error (full disk, quota, I/O error on a network file
+		// system) may only be reported when the file is closed
+		err = cerr
+	}
 	if err != nil {
 		return fmt.Errorf("failed to write Spec file: %w", err)
 	}
